@@ -509,6 +509,7 @@ func preInitSub(t *table, o *opReq, proto string, id func() string) submission {
 type world struct {
 	servers map[config]*server
 	dec     *decoderServer
+	caseNo  int
 }
 
 func (w *world) server(c config) *server {
@@ -528,6 +529,7 @@ func optVars(j *J) sexp.Node {
 }
 
 func (w *world) run(cfg config, feat bool, o *opReq, t *table, subs []submission) sexp.Node {
+	w.caseNo++
 	variants := []*server{}
 	for _, clone := range []bool{false, true} {
 		c := cfg
@@ -552,12 +554,12 @@ func (w *world) run(cfg config, feat bool, o *opReq, t *table, subs []submission
 					obs[k] = append(obs[k], ob.sexp())
 				}
 			} else {
-				decs[k] = w.dec.decodeWS(*s.WS)
+				decs[k] = w.dec.decodeWS(*s.WS, w.caseNo)
 				// a subscription is answered asynchronously; a message the decoder does not hand to
 				// HandleStart is not answered at all, so there is nothing to wait for
 				async := o.Sub && len(decs[k].List) > 0 && decs[k].List[0].Sym == "start"
 				for _, v := range variants {
-					obs[k] = append(obs[k], v.serveWS(*s.WS, feat, async).sexp())
+					obs[k] = append(obs[k], v.serveWS(*s.WS, feat, async, w.caseNo).sexp())
 				}
 			}
 		}
